@@ -18,6 +18,12 @@ def key_values(rng, key, count):
         if key["k"] == "tuple":
             return tuple(rng.choice([0, 1, 2, T.int_range(x["t"])[1]]) for x in key["ts"])
         return [rng.choice([0, 1, 2, 255]) for _ in range(key["n"])]
+    if key["k"] == "int" and rng.random() < 0.2:
+        # keys that differ in their most significant bit only, with nothing in between (and one key above both)
+        lo, hi = T.int_range(key["t"])
+        half = (hi + 1) // 2
+        k = rng.choice([0, 1, 2, 5, 100])
+        return [k, half + k] + ([hi] if count > 2 else [])
     seen = {}
     for _ in range(200):
         v = one()
@@ -141,7 +147,12 @@ def judge_join(c, r):
             got = [e for e in v if e[0]]
             if c["assoc"]:
                 want = sorted(json.dumps([gen_prog.val_json(ta["elem"], ka[k][0]), gen_prog.val_json(tb["elem"], kb[k][0])]) for k in common_keys)
-                have = sorted(json.dumps([gen_prog.val_json(ta["elem"], e[1]), gen_prog.val_json(tb["elem"], e[2])]) for e in got)
+                try:
+                    have = sorted(json.dumps([gen_prog.val_json(ta["elem"], e[1]), gen_prog.val_json(tb["elem"], e[2])]) for e in got)
+                except Exception:
+                    # a flagged entry that does not even decode to values of the element types (e.g. an enum tag out of range)
+                    fs.append(Failure("oracle", "c13:join:flagged-entry-not-a-value", "a flagged entry of join() is not the encoding of a pair of elements", one, want[:6], str(got)[:300]))
+                    break
             else:
                 want = sorted(common_keys)
                 have = sorted(T.encode(c["key"], e[1]) for e in got)
